@@ -25,6 +25,28 @@
 Require Import Verif.Model.Base Verif.Model.Dec Verif.Model.Level Verif.Model.Mode.
 Require Import Verif.Model.JsonEsc Verif.Model.Attrs Verif.Model.Encode Verif.Model.Json.
 Require Import Verif.Proofs.EscP Verif.Proofs.SortP Verif.Proofs.JsonStrP Verif.Proofs.JsonP.
+Require Import Verif.Model.GoSem.
+Require Verif.Gen.Escapes Verif.Gen.Tables Verif.Proofs.GenEscP.
+
+(* ---- the source against the model: PrintCtx.appendEscapedJSONString as it is in /repo now
+   (translated on every run, Gen/Escapes.v: the index loop with its lazily copied run val[start:i],
+   utf8.DecodeRuneInString = Model/Utf8.v, the tables hex and safeSet = Gen/Tables.v, every index
+   and slice a possible panic) appends exactly the model's json_escape to the buffer, for every
+   byte string and every buffer.  [None] would be a panic or a loop that outruns its declared fuel
+   len(val)+1: neither happens. ---- *)
+Theorem C04_gen_json_escape : forall val buf,
+  Escapes.json_escape Tables.t_hex Tables.t_safeSet val buf = Some (buf ++ json_escape val).
+Proof. exact GenEscP.gen_json_escape. Qed.
+Print Assumptions C04_gen_json_escape.
+
+(* a member name goes through that escaper between two quotes (JSON mode) or is copied (otherwise):
+   PrintCtx.pcAppendStringKey as it is in /repo now; a helper it calls (a fast path) would be
+   translated with it *)
+Theorem C04_gen_string_key : forall jsonMode buf str,
+  Escapes.string_key Tables.t_hex Tables.t_safeSet jsonMode buf str =
+  Some (buf ++ if jsonMode then json_quote str else str).
+Proof. exact GenEscP.gen_string_key. Qed.
+Print Assumptions C04_gen_string_key.
 
 (* The quoted form of ANY byte string (quotes, backslashes, CR/LF, control characters,
    U+2028/9, invalid UTF-8, ...) followed by anything is read back by the JSON parser as
